@@ -83,3 +83,18 @@ Proof.
   - intros [n [Hn H]]. apply in_map_iff in H. destruct H as [c [E Hc]]. exists n, c. repeat split; [exact Hn | exact Hc | symmetry; exact E].
   - intros [n [c [Hn [Hc E]]]]. exists n. split; [exact Hn|]. apply in_map_iff. exists c. split; [symmetry; exact E | exact Hc].
 Qed.
+
+(* rows of the covariance-gradient table: exact enclosures of the gradient components of every observable *)
+Theorem cov_table_rows (u_obs d_obs : list obs) xs :
+  In xs (dcov_table u_obs d_obs) <->
+  exists n k, In n (all_cov_names (u_obs ++ d_obs)) /\ In k (seq 0 (cov_len (u_obs ++ d_obs) n))
+              /\ xs = map (fun o => dexact (covgrad_of o n k)) u_obs ++ map (fun o => dexact (covgrad_of o n k)) d_obs.
+Proof.
+  unfold dcov_table. rewrite in_flat_map. split.
+  - intros [n [Hn H]]. apply in_map_iff in H. destruct H as [k [E Hk]]. exists n, k. repeat split; [exact Hn | exact Hk | symmetry; exact E].
+  - intros [n [k [Hn [Hk E]]]]. exists n. split; [exact Hn|]. apply in_map_iff. exists k. split; [symmetry; exact E | exact Hk].
+Qed.
+Theorem cov_table_row_encloses (u_obs d_obs : list obs) (n : string) (k : nat) :
+  Forall2 enclx (map (fun o => dexact (covgrad_of o n k)) u_obs ++ map (fun o => dexact (covgrad_of o n k)) d_obs)
+          (map (fun o => Q2R (covgrad_of o n k)) u_obs ++ map (fun o => Q2R (covgrad_of o n k)) d_obs).
+Proof. apply Forall2_app; [induction u_obs as [|o l IH] | induction d_obs as [|o l IH]]; cbn; constructor; try apply dexact_encl; exact IH. Qed.
